@@ -40,6 +40,23 @@ r7 = [json.load(open(dd + 'meta.json')) for dd in sorted(glob.glob('/verif/seede
 own7 = sum(1 for m in r7 if m['confirmed'].get('own_property_check_detected_on_first_run'))
 any7 = sum(1 for m in r7 if m['confirmed'].get('first_run', {}).get('detected_by'))
 tail = tail.replace('@@R7_STATS@@', "%d of %d were caught at once by the targeted check, %d of %d by some check" % (own7, len(r7), any7, len(r7)))
+def rstats(sfx):
+    ms = [json.load(open(dd + 'meta.json')) for s_ in sfx for dd in sorted(glob.glob('/verif/seeded/C*-%d/' % s_))]
+    own_ = sum(1 for m in ms if m['confirmed'].get('own_property_check_detected_on_first_run'))
+    any_ = sum(1 for m in ms if m['confirmed'].get('first_run', {}).get('detected_by'))
+    return "%d of %d were caught at once by the targeted check, %d of %d by some check" % (own_, len(ms), any_, len(ms)), ms
+r8s, r8 = rstats([15, 16])
+r9s, r9 = rstats([17])
+tail = tail.replace('@@R8_STATS@@', r8s)
+tail = tail.replace('@@R9_STATS@@', r9s if r9 else "not run")
+r9t = '/verif/tools/design_round9.md'
+tail = tail.replace('@@R9_TEXT@@', open(r9t).read().strip() if os.path.exists(r9t) else "")
+nseeds = len(glob.glob('/verif/seeded/C*-*/'))
+tail = tail.replace('@@NSEEDS@@', str(nseeds)).replace('@@NROUNDS_TEXT@@', "sixteen per property in eight rounds - the C18 agent of round 8 delivered one - plus one per property in a ninth" if r9 else "sixteen per property, in eight rounds; the C18 agent of round 8 delivered one")
+notdet = [os.path.basename(dd.rstrip('/')) for dd in sorted(glob.glob('/verif/seeded/C*-*/')) if json.load(open(dd + 'meta.json')).get('expect_detected') is False]
+tail = tail.replace('@@NOT_EXPECTED@@', ", ".join(notdet))
+ndo = sum(1 for dd in glob.glob('/verif/seeded/C*-*/') if 'detecting_check' in json.load(open(dd + 'meta.json')))
+tail = tail.replace('@@NDETOTHER@@', str(ndo))
 tail = tail.replace('@@R5_STATS@@', "%d of %d were caught at once by the targeted check, %d of %d by some check" % (own5, len(r5), any5, len(r5)))
 tail = tail.replace('@@COVERAGE_TABLE@@', cov).replace('@@SEED_TABLE@@', seeds).replace('@@MUTANT_TABLE@@', mut)
 open('/verif/DESIGN.md', 'w').write(d.rstrip('\n') + "\n\n" + head + tail)
